@@ -256,6 +256,20 @@ add("C17", "E3",
     "store serialises file operations at the shim's points. Real file systems/OS scheduling are not owned.",
     "DESIGN.md §3.3, §4 C17", category="model_checking")
 
+add("C18", "E3",
+    "breadth-first search over analysis histories with process-state digests, differential oracle against fresh processes",
+    "BFS over sequences of analyses (alphabet of 8 covering both ISAs, several models, --fixed, -f, "
+    "--ignore-unknown, read-modify-write and unknown instructions, no --arch) to depth 2 (thorough 3); "
+    "each history runs in a process forked from a pristine parent, at two driver levels: the CLI "
+    "entry point per analysis and reused MachineModel/ArchSemantics objects per architecture (where "
+    "in-place mutation of shared model data is not masked by re-reading the cache). States are "
+    "digests of the process-global state (in-process model cache, mutable default arguments, parser "
+    "singletons, lru_cache, data of reused models); histories are expanded only from new states. Every "
+    "report is compared with the report of the same analysis in a fresh process (subprocess CLI run / "
+    "single-analysis history).",
+    "Differential oracle, no hand-written expectation. Depth 2-3 over the stated alphabet only.",
+    "DESIGN.md §3.3, §4 C18", category="model_checking")
+
 NOT_YET = {}
 
 def main():
